@@ -310,7 +310,9 @@ class HistogramRegistration:
         trans_vox_coords = Tv.apply(self._vox_coords)
         interp = self._interp
         if self._interp < 0:
-            interp = -self.rng.integers(MAX_INTC)
+            # The seed must be strictly positive: a draw of 0 would hand
+            # the kernel interp=0, which is partial volume interpolation
+            interp = -self.rng.integers(1, MAX_INTC)
         _joint_histogram(self._joint_hist,
                          self._from_data.flat,  # array iterator
                          self._to_data,
